@@ -588,6 +588,7 @@ ERRS = (KeyError, IndexError, mrs.MRSError, dmrs.DMRSError, ValueError, Assertio
 
 class C04(Check):
     pid = "C04"
+    props_modules = ["Verif.C04.Props", "Verif.C04.PropsRT"]
     quick_cases = 4000
     thorough_cases = 40000
     rule = ("(a) 19 curated structures of 0-5 predications, one per attachment kind (modifier, label sharing without "
